@@ -5,7 +5,8 @@ from hypothesis import strategies as st
 import pytenet as ptn
 from core import Part, require, Violation
 from gen_graph import (tree_list, build_tree, tree_height, automaton, build_automaton, chain_list, build_chains, chain_tuples,
-                       layered_graph, build_graph, graph_desc_poly, OID_ID, SYMBOLS, physical_charges, random_opmap)
+                       layered_graph, build_graph, graph_desc_poly, OID_ID, SYMBOLS, physical_charges, random_opmap,
+                       tree_with_identity_id, opmap_with_identity_id)
 from oracle_sym import frac, graph_poly, tree_poly, automaton_poly, poly_sum, poly_matrix, chains_poly, absconv
 from props.c16 import same_poly, float_conv
 
@@ -39,6 +40,10 @@ def check_trees(case, rec):
     L = case['L']
     exact = case['cstyle'] == 'dyadic'
     conv = frac if exact else float_conv
+    # the identity id is an argument of from_optrees: ids 0 and `ident` are swapped throughout
+    ident = case.get('identity_id', 0)
+    OID_ID = ident
+    case = dict(case, trees=[tree_with_identity_id(t, ident) for t in case['trees']])
     trees = [build_tree(t) for t in case['trees']]
     want = poly_sum(*[tree_poly(t, L, OID_ID, conv) for t in case['trees']])
     graph = ptn.OpGraph.from_optrees(trees, L, OID_ID)
@@ -47,7 +52,7 @@ def check_trees(case, rec):
     magsum = float(sum(poly_sum(*[tree_poly(t, L, OID_ID, absconv) for t in case['trees']]).values()))
     same_poly(graph_poly(graph, conv), want, exact, 'from_optrees', scale=magsum)
     dim = case['dim']
-    opmap = rand_opmap(dim, case['opseed'])
+    opmap = opmap_with_identity_id(rand_opmap(dim, case['opseed']), ident)
     # dense meaning of the graph, both directions
     ref = poly_matrix(want, opmap, dim, L)
     dense_close(graph.as_matrix(opmap), ref, want, opmap, L, 'OpGraph.as_matrix(direction=1)', magsum)
@@ -70,7 +75,7 @@ def check_trees(case, rec):
                 leaf_above = True
     # MPO conversion of the unfolded graph keeps the meaning (charge-consistent labels)
     qd = physical_charges(case['charged'], case['opseed'], L)
-    cmap = random_opmap(qd, case['charged'], case['opseed'] + 3)
+    cmap = opmap_with_identity_id(random_opmap(qd, case['charged'], case['opseed'] + 3), ident)
     mpo = ptn.MPO.from_opgraph(qd, graph, cmap)
     from oracle_dense import mpo_to_mat
     if len(want):
@@ -90,6 +95,7 @@ def gen_trees(draw, tier):
     if d['dim'] ** d['L'] > 729:
         d['dim'] = 2
     d['opseed'] = draw(st.integers(0, 10000))
+    d['identity_id'] = draw(st.sampled_from([0, 0, 7, -3]))
     return d
 
 
